@@ -34,7 +34,10 @@ ASSUMPTIONS = ['mc/refsvg.py: transform lists (SVG 1.1 7.6), basic shapes (chapt
 
 TRANSFORMS = [None, 'translate(3,-2)', 'translate(4)', 'scale(2)', 'scale(2,0.5)', 'rotate(30)', 'rotate(30,1,2)',
               'skewX(20)', 'skewY(-10)', 'matrix(1,.5,-.5,1,3,4)', 'translate(3,-2) scale(2)', 'rotate(30),translate(1 1)',
-              'scale(-1,1)', 'scale(1,-1)']
+              'scale(-1,1)', 'scale(1,-1)',
+              # the same operations in other legal spellings (reach the readers as own / sibling-group transforms)
+              'translate( 3 , -2 )', 'scale(2 0.5)', 'rotate(30 1 2)', 'matrix(1 .5 -.5 1 3 4)', ' translate(3,-2)  scale(2) ',
+              'rotate(-45)skewX(1e1)', 'translate(1e-1,2E0)', 'translate(0,0)', 'translate(5,0)', 'scale(0.5,1e0)']
 
 LEAVES = {
     'path_lines': ('path', {'d': 'M 1 1 L 5 2 L 4 6 z'}),
@@ -90,10 +93,13 @@ def build_doc(kind, ta, tb, leaves):
 
     def g(i, t):
         return '<g id="g%d"%s>' % (i, (' transform="%s"' % t) if t else '')
-    xml = '<?xml version="1.0"?>\n<svg xmlns="%s" width="100" height="100">' % NS
-    xml += leaf(0, [], [])
-    xml += g(1, ta) + leaf(1, [ta], ['g1']) + g(2, tb) + leaf(2, [ta, tb], ['g1', 'g2']) + '</g></g>'
-    xml += g(3, tc) + leaf(3, [tc], ['g3']) + '</g>'
+    # every third document also carries a transform on the root <svg> element (an ancestor of everything)
+    troot = TRANSFORMS[(ti + 2) % 10] if ti % 3 == 0 else None
+    base = [troot] if troot else []
+    xml = '<?xml version="1.0"?>\n<svg xmlns="%s" width="100" height="100"%s>' % (NS, (' transform="%s"' % troot) if troot else '')
+    xml += leaf(0, base + [], [])
+    xml += g(1, ta) + leaf(1, base + [ta], ['g1']) + g(2, tb) + leaf(2, base + [ta, tb], ['g1', 'g2']) + '</g></g>'
+    xml += g(3, tc) + leaf(3, base + [tc], ['g3']) + '</g>'
     xml += '</svg>'
     return xml, recs
 
